@@ -18,6 +18,9 @@ claimed = {
  "C10": "Theorems C10_verdict, C10_initial, C10_step (a reason is recorded after a step iff it was before or the step is exactly one of the three events: non-100 while awaiting, returned response with Connection: close, close-delimited body entered), C10_cap.",
  "C11": "Theorems C11_undecided(_bare), C11_continue, C11_refused_bare, C11_refused_fields (response with >=1 complete field line, any status), C11_proceed (edges incl. converted holder), C11_late (late 100 consumed once).",
  "C12": "Theorems for ARBITRARY bytes: C12_read (every body framing: error or consumed<=offered, produced<=space, produced is a subsequence of consumed input; decoder never rests in the trailer state), C12_head / C12_partial (no panic outcome, consumed<=offered), plus C09_history for 'state-advancing calls afterwards do not panic'.",
+ "C13": "Theorems C13 (every effective header of the request built for a redirect: never cookie / content-length; authorization only under same-host policy with equal host and same-or-https scheme), C13_chain (every hop is rebuilt from the ORIGINAL request, so the comparison is against the original URI at every hop), C13_asNewFlow, C13_cap.",
+ "C14": "Theorems C14_current (new URI = resolution of the remembered Location against the CURRENT effective URI), C14_last (last Location field), C14_errors (missing / non-textual / unresolvable => the two error kinds, no panic outcome), C14_wire_line. The resolution function itself is the RFC 3986 section 5.2 algorithm (model = specification); that url::Url::join agrees with it on the stated class is decided by the correspondence (RFC 5.4 examples, base x reference grid, random chains) — partial by construction: the url crate is modelled, not verified.",
+ "C15": "Theorems C15 (method table, every method x every status : Nat), C15_follow (as_new_flow uses it), C15_enter (redirect state iff 3xx other than 304), C15_status.",
  "C16": "Theorems C16_order (caller-added headers are the first effective headers, for any unset list), C16_add, C16_analysis_appends, C16_render, with C02_render putting them on the wire in that order; C16_inherited_still_suppressed.",
  "C17": "Theorems C17_iff (analysis fails exactly on the invalid classes of the property text), C17_write_refused (error, nothing emitted, state unchanged => repeatable), C17_never_ready, C17_accept (everything else: ok or OutputOverflow).",
  "C18": "Theorems C18_fits_chunked (a write of calculate_max_input(n) bytes into n bytes consumes all of it, for every n, through the byte-level writer), C18_sized, C18_le_n, C18_monotone.",
